@@ -412,11 +412,14 @@ impl<'t, 'c> Ser<'t, 'c> {
             let plain = format!("<!DOCTYPE {}>", root.name);
             let sys = format!("<!DOCTYPE {} SYSTEM \"x.dtd\">", root.name);
             let subset = format!("<!DOCTYPE {} [<!ELEMENT {} ANY><!ENTITY e \"v\">]>", root.name, root.name);
-            let which = self.t.choose(if self.cfg.doctype_subset { 3 } else { 2 });
+            // a long internal subset with multi-byte characters at varying byte offsets
+            let long_subset = if self.cfg.long_content { format!("<!DOCTYPE {} [<!ENTITY c \"{}\">]>", root.name, self.long_run().replace('"', "'").replace('%', "p").replace('&', "a").replace('<', "l")) } else { subset.clone() };
+            let which = self.t.choose(if self.cfg.doctype_subset { 4 } else { 2 });
             self.push(match which {
                 0 => &plain,
                 1 => &sys,
-                _ => &subset,
+                2 => &subset,
+                _ => &long_subset,
             });
             if self.cfg.outer_ws && self.t.chance(128) {
                 self.push("\n");
